@@ -615,7 +615,8 @@ func (g *gen) one() c08In {
 		case 1:
 			value = big.NewInt(1_000_000_000_000)
 		case 2:
-			value = big.NewInt(1)
+			// (values that are no multiple of 10^12 wei change the unibi supply on commit: that is C05's subject)
+			value = big.NewInt(5_000_000_000_000)
 		}
 	}
 	data, label := g.calldata(pc)
